@@ -92,7 +92,18 @@ def elem_to_value(ex, term, kind):
     if isinstance(kind, tuple) and kind[0] == 'tup':
         sort, mk, projs = tuple_parts(kind)
         return tuple(elem_to_value(ex, z3.simplify(p(term)), k) for p, k in zip(projs, kind[1]))
+    if isinstance(kind, tuple) and kind[0] == 'rec':
+        return ElemRef(rec_heap(ex, kind[1]), mk_int(term))
     return Sym(z3.simplify(term), kind)
+
+
+def rec_heap(ex, model_name):
+    """the record heap of a class: the ghost field that holds the symbolic map of that model"""
+    g = ex.obj(ex.ghost)
+    for v in g.fields.values():
+        if isinstance(v, Ref) and isinstance(ex.obj(v), MObj) and ex.obj(v).elem_model is not None and ex.obj(v).elem_model.name == model_name:
+            return Ref(v.oid)
+    raise Unsupported(f'no record heap (ghost MapOf) for {model_name}')
 
 
 def value_to_elem(ex, v, kind):
@@ -110,6 +121,8 @@ def value_to_elem(ex, v, kind):
         return mk(*[value_to_elem(ex, x, k) for x, k in zip(v, kind[1])])
     if isinstance(v, Sym) and v.k == kind:
         return v.t
+    if isinstance(kind, tuple) and kind[0] == 'rec' and isinstance(v, ElemRef) and ex.obj(v.mref).elem_model.name == kind[1]:
+        return zint(v.key)
     raise Unsupported(f'cannot store {v!r} as element of kind {kind}')
 
 
@@ -121,6 +134,8 @@ def guess_kind(ex, v):
         return v.k
     if isinstance(v, tuple):
         return ('tup', tuple(guess_kind(ex, x) for x in v))
+    if isinstance(v, ElemRef) and ex.obj(v.mref).elem_model is not None:
+        return ('rec', ex.obj(v.mref).elem_model.name)
     raise Unsupported(f'no element kind for {v!r}')
 
 
@@ -171,6 +186,24 @@ def term_factor(t, depth):
     return 1
 
 
+def mark_range(ex, t, lo, hi):
+    """remember that lo <= t <= hi is a fact of the path condition (type invariant of an IntRange value)"""
+    ex.__dict__.setdefault('known_ranges', {})[t.get_id()] = (lo, hi)
+    ex.keep.append(t)
+
+
+def in_known_range(ex, v, lo, hi):
+    """cheap, sound: is the value syntactically known to lie within lo..hi"""
+    if isinstance(v, bool):
+        return lo <= int(v) <= hi
+    if isinstance(v, int):
+        return lo <= v <= hi
+    if not (isinstance(v, Sym) and v.k == 'int') or ex.quant:
+        return False
+    r = term_range(ex, v.t, 0)
+    return r is not None and lo <= r[0] and r[1] <= hi
+
+
 def term_range(ex, t, depth):
     """cheap syntactic interval of an integer term built from known bytes and constants
     (sound: None when nothing is known)"""
@@ -181,6 +214,11 @@ def term_range(ex, t, depth):
         return (c, c)
     if t.get_id() in ex.__dict__.get('known_bytes', ()):
         return (0, 255)
+    kr = ex.__dict__.get('known_ranges')
+    if kr:
+        r = kr.get(t.get_id())
+        if r is not None:
+            return r
     if not z3.is_app(t):
         return None
     k = t.decl().kind()
@@ -247,8 +285,8 @@ def read_byte(ex, seq_t, idx_t):
     if hit is not None:
         return hit
     # a read at a position the simplifier can resolve (unit inside a concatenation) needs no name
-    if ci is not None and z3.is_app(seq_t) and seq_t.decl().kind() == z3.Z3_OP_SEQ_CONCAT:
-        direct = _unit_at(seq_t, ci)
+    if ci is not None and z3.is_app(seq_t) and seq_t.decl().kind() in (z3.Z3_OP_SEQ_CONCAT, z3.Z3_OP_SEQ_UNIT):
+        direct = _unit_at(seq_t, ci, ex)
         if direct is not None:
             r = mk_int(direct)
             if isinstance(r, Sym):
@@ -268,24 +306,32 @@ def read_byte(ex, seq_t, idx_t):
     return r
 
 
-def _unit_at(t, i):
+def _unit_at(t, i, ex=None):
     """element i of a concatenation whose first i+1 parts are unit sequences, else None"""
-    parts = []
-    stack = [t]
-    while stack:
-        x = stack.pop()
-        if z3.is_app(x) and x.decl().kind() == z3.Z3_OP_SEQ_CONCAT:
-            stack.extend(reversed(x.children()))
-            continue
-        parts.append(x)
-        if len(parts) > i:
+    cache = ex.__dict__.setdefault('flat_cache', {}) if ex is not None else None
+    ent = cache.get(t.get_id()) if cache is not None else None
+    if ent is None:
+        # flattened leading run of unit parts (their element terms), computed once per sequence term
+        elems = []
+        stack = [t]
+        while stack:
+            x = stack.pop()
+            if z3.is_app(x):
+                k = x.decl().kind()
+                if k == z3.Z3_OP_SEQ_CONCAT:
+                    stack.extend(reversed(x.children()))
+                    continue
+                if k == z3.Z3_OP_SEQ_UNIT:
+                    elems.append(x.arg(0))
+                    continue
             break
-    if len(parts) <= i:
+        ent = elems
+        if cache is not None:
+            cache[t.get_id()] = ent
+            ex.keep.append(t)
+    if i >= len(ent):
         return None
-    for p in parts[: i + 1]:
-        if not (z3.is_app(p) and p.decl().kind() == z3.Z3_OP_SEQ_UNIT):
-            return None
-    return parts[i].arg(0)
+    return ent[i]
 
 
 def name_int(ex, v, hint='t'):
@@ -419,11 +465,13 @@ def subscript(ex, o, i):
                 idx = norm_index(ex, i, n)
                 k = ex.decide([idx == j for j in range(n)], 'list index')
                 return ex.wrap(ho.items[k], o)
-            return seq_get(ex, ho.sym, i)
+            return ex.wrap(seq_get(ex, ho.sym, i), o)
         if isinstance(ho, DObj):
             return dict_getitem(ex, o, ho, i)
         if isinstance(ho, MObj):
             return map_getitem(ex, o, ho, i)
+        if isinstance(ho, ExtObj):
+            return ho.ext_subscript(ex, o, i)
         if isinstance(ho, Obj):
             return obj_special(ex, o, '__getitem__', [i])
     if isinstance(o, (bytes, bytearray)) and isinstance(i, int):
@@ -486,6 +534,9 @@ def seq_get(ex, seq, i):
     idx = norm_index(ex, i, n)
     if seq.k == 'bytes':
         return read_byte(ex, seq.t, idx)
+    if isinstance(seq.k[1], tuple) and seq.k[1][0] == 'rec' and not ex.quant:
+        # valid fact of the theory of sequences (hint for membership-quantified invariants, see forall_in)
+        ex.add_def(z3.Implies(z3.And(idx >= 0, idx < z3.Length(seq.t)), z3.Contains(seq.t, z3.Unit(seq.t[idx]))))
     return elem_to_value(ex, nth_through(seq.t, idx), seq.k[1])
 
 
@@ -529,6 +580,11 @@ def reverse_bytes(ex, o):
     if isinstance(b, bytes):
         return b[::-1]
     n = conc_int(z3.Length(b.t))
+    if n is None and not ex.quant:
+        for k in (2, 4, 16, 1, 6, 8):  # common fixed widths (UUIDs, addresses, integers) known from the path condition
+            if ex.proves(z3.Length(b.t) == k):
+                n = k
+                break
     if n is not None and n <= 512:
         if n == 0:
             return b''
@@ -816,12 +872,23 @@ def elem_get(ex, er, name, raw=False):
     arr, kind, default = ho.cols[name]
     if not raw and name in getattr(ho, 'event_cols', ()):
         return EventView(er, name)
+    if not raw and (name + '?') in ho.cols:
+        # optional field: the Bool column `name?` says that the field is None (a case split at the read)
+        if ex.branch(mk_bool(z3.Select(ho.cols[name + '?'][0], zint(er.key)))):
+            return None
     return elem_to_value(ex, z3.Select(arr, zint(er.key)), kind)
 
 
 def elem_set(ex, er, name, v):
     ho = ex.wobj(er.mref)
+    if name not in ho.cols:
+        raise Unsupported(f'record field {name} not modelled')
     arr, kind, default = ho.cols[name]
+    if (name + '?') in ho.cols:
+        narr, nk, nd = ho.cols[name + '?']
+        ho.cols[name + '?'] = (z3.Store(narr, zint(er.key), z3.BoolVal(v is None)), nk, nd)
+        if v is None:
+            return
     ho.cols[name] = (z3.Store(arr, zint(er.key), value_to_elem(ex, v, kind)), kind, default)
 
 
@@ -888,7 +955,7 @@ def identical(ex, a, b):
             return equal(ex, a, b)
         raise Unsupported('identity of symbolic values')
     if isinstance(a, ElemRef) and isinstance(b, ElemRef):
-        return equal(ex, a.key, b.key) if a.mref == b.mref else False
+        return equal(ex, a.key, b.key) if a.mref.oid == b.mref.oid else False  # (identity does not depend on the heap version viewed)
     return a is b
 
 
@@ -929,6 +996,11 @@ def equal(ex, a, b):
         if oa.sym is not None and ob.sym is not None and oa.sym.k == ob.sym.k:
             return mk_bool(oa.sym.t == ob.sym.t)
         sa, sb = list_as_sym(ex, a), list_as_sym(ex, b)
+        # an empty concrete list has no element kind of its own: it takes the kind of the other side
+        if sa is None and sb is not None and not oa.items:
+            sa = list_as_sym(ex, a, sb.k[1])
+        if sb is None and sa is not None and not ob.items:
+            sb = list_as_sym(ex, b, sa.k[1])
         if sa is not None and sb is not None and sa.k == sb.k:
             return mk_bool(sa.t == sb.t)
         raise Unsupported('list equality with mixed spines')
@@ -949,6 +1021,8 @@ def equal(ex, a, b):
         o = a if ka == 'obj' else b
         other = b if ka == 'obj' else a
         return obj_eq(ex, o, other)
+    if isinstance(a, ElemRef) or isinstance(b, ElemRef):
+        return elem_eq(ex, a, b)
     if isinstance(a, OpaqueStr) or isinstance(b, OpaqueStr):
         raise Unsupported('comparison of an opaque string')
     if ka != kb and {ka, kb} <= {'int', 'bool', 'bytes', 'bytearray', 'str', 'none', 'tuple', 'list', 'dict'}:
@@ -964,6 +1038,22 @@ def equal(ex, a, b):
         if isinstance(s, Sym) and s.k in ('int', 'bool', 'bytes') and not isinstance(c, (int, bytes)):
             return False
     raise Unsupported(f'equality of {a!r} and {b!r}')
+
+
+def elem_eq(ex, a, b):
+    """== where an operand is a record of a symbolic map: the class's __eq__ (inline) or identity"""
+    if not isinstance(a, ElemRef):
+        a, b = b, a
+    cls = ex.obj(a.mref).elem_cls
+    eqf = getattr(cls, '__eq__', None)
+    if eqf is object.__eq__ or eqf is None:
+        return identical(ex, a, b) if isinstance(b, ElemRef) else False
+    if isinstance(eqf, types.FunctionType):
+        r = ex.call(ex.func_of_native(eqf), [a, b], {})
+        if r is NotImplemented:
+            return False
+        return ex.truth(r)
+    raise Unsupported(f'__eq__ of {cls}')
 
 
 def list_as_sym(ex, ref, kind=None):
@@ -1128,13 +1218,21 @@ def binop(ex, op, a, b):
     raise Unsupported(f'binop {type(op).__name__} on {a!r}, {b!r}')
 
 
+_REPEAT_FUNCS = {}
+
+
 def bytes_repeat(ex, pat, n):
     """pat * n for symbolic n: a fresh string constrained by length and (for a
     single repeated byte) by content"""
     if len(pat) != 1:
         raise Unsupported('repeat of multi-byte pattern a symbolic number of times')
-    r = ex.fresh_sym('bytes', 'rep')
-    nt = zint(n)
+    # the string is a *function* of the count (so that equal counts give equal strings by congruence), defined by its
+    # length and its elements: a conservative definition, instantiated for this count
+    nt = z3.simplify(zint(n))
+    f = _REPEAT_FUNCS.get(pat[0])
+    if f is None:
+        f = _REPEAT_FUNCS[pat[0]] = z3.Function(f'repeat_{pat[0]}', z3.IntSort(), IntSeq)
+    r = Sym(f(nt), 'bytes')
     i = z3.Int(ex.fresh_name('ri'))
     ex.add_def(z3.Length(r.t) == zmax(nt, z3.IntVal(0)))
     ex.add_def(z3.ForAll([i], z3.Implies(z3.And(i >= 0, i < z3.Length(r.t)), r.t[i] == pat[0])))
@@ -1344,7 +1442,15 @@ def _int_binop(ex, op, a, b):
         return r
     if t is ast.RShift:
         if cb is None:
-            raise Unsupported('shift by symbolic amount')
+            # symbolic amount: exact for 0 <= amount < 64 (case distinction over divisions by constants)
+            if not ex.branch(mk_bool(y >= 0)):
+                ex.raise_(ValueError, 'negative shift count')
+            if not ex.branch(mk_bool(y < 64)):
+                raise Unsupported('right shift by a symbolic amount that may be >= 64')
+            r = x / (1 << 63)
+            for k in range(62, -1, -1):
+                r = z3.If(y == k, x / (1 << k), r)
+            return mk_int(r)
         if cb < 0:
             ex.raise_(ValueError, 'negative shift count')
         return mk_int(x / (1 << cb))
@@ -1423,6 +1529,12 @@ def bv_op(ex, t, a, b):
                 kb = max(cv.bit_length(), 1)
                 if kb not in ks:
                     ks.append(kb)
+            # a power of two that syntactically divides u (e.g. 16384 + 4096*p): u's low bits are zero
+            fu = term_factor(u, 0)
+            if fu > 1:
+                kf = (fu & -fu).bit_length() - 1
+                if kf > 0 and kf not in ks:
+                    ks.append(kf)
             for k in ks:
                 if ex.proves(z3.And(u % (1 << k) == 0, v >= 0, v < (1 << k))):
                     r = mk_int(u + v)
